@@ -468,20 +468,12 @@ def merge_projections(arr):
         return arr
     if len(arr) == 1 or not has_none(arr[0]):
         return arr[0]
-    sparse_fa = np.copy(arr[0])
-    i = 0
-    k = 1
-    while i < len(sparse_fa) and k < len(arr):
-        fa = arr[k]
-        j = 0
-        while i < len(sparse_fa) and j < len(fa):
-            if sparse_fa[i] is None:
-                sparse_fa[i] = fa[j]
-                j += 1
-                while j < len(fa) and safe_eq(fa[j], None):
-                    j += 1
-            i += 1
-        k += 1
+    sparse_fa = list(arr[0])
+    for fa in arr[1:]:
+        # each later argument list fills the holes that are still open, left to right (its own holes stay open)
+        holes = [i for i, v in enumerate(sparse_fa) if v is None]
+        for i, v in zip(holes, fa):
+            sparse_fa[i] = v
     return sparse_fa
 
 
